@@ -71,6 +71,7 @@ type programL struct {
 	Cacheable bool
 	RateDelta int            // >0: recv increments a rate counter by this much
 	Wrap      map[string]int // per subroutine: the syntactic form its actions are written in (wrapStmt)
+	ReadObj   bool           // vcl_hit reads obj.ttl, obj.age, obj.hits and obj.grace (and assigns nothing)
 	Fresh     string         // "" (vcl_fetch sets beresp.ttl) or who decides freshness at the origin: expires-past | max-age | surrogate | s-maxage
 	RateForm  int            // how: 0 ratecounter_increment, 1 check_rate, 2 check_rates as its second counter (the first one trips), 3 check_rates as its first counter
 	Penalty   bool           // recv adds the client to a penalty box when X-Punish is set
@@ -140,6 +141,11 @@ func (p *programL) render() string {
 				// histories exist in which an entry expires unobserved
 				b.WriteString("  if (req.http.X-Check) {\n    if (ratelimit.penaltybox_has(pb_a, req.http.X-Client)) {\n      set req.http.X-Boxed = \"1\";\n    } else {\n      set req.http.X-Boxed = \"0\";\n    }\n  }\n")
 				b.WriteString("  if (req.http.X-Punish && req.restarts == 0) {\n    ratelimit.penaltybox_add(pb_a, req.http.X-Client, 2m);\n  }\n")
+			}
+		case "hit":
+			if p.ReadObj {
+				// reads only: looking at the object must not change it
+				b.WriteString("  set req.http.X-Obj-TTL = obj.ttl;\n  set req.http.X-Obj-Age = obj.age;\n  set req.http.X-Obj-Hits = obj.hits;\n  set req.http.X-Obj-Grace = obj.grace;\n")
 			}
 		case "hash":
 			if p.HashVary {
@@ -447,6 +453,7 @@ func drawProgramL(c *worker.Ctx) *programL {
 		p.Fresh = []string{"expires-past", "max-age", "surrogate", "s-maxage"}[c.T.Draw(4)]
 		p.Cacheable = true
 	}
+	p.ReadObj = c.T.Bool(1, 3)
 	for _, s := range scopes {
 		pick := func() string {
 			la := legalActions[s]
